@@ -70,6 +70,30 @@ fn regex_heavy_case(t: &mut Tape) -> FullCase {
         }
         base.rules.push(r);
     }
+    if t.chance(1, 3) {
+        // rules whose regex the regex crate rejects (look-around): they never match, however often
+        // their cache entry is discarded and rebuilt
+        for _ in 0..(1 + t.pick(3)) {
+            let w = t.choose(&["ads", "banner", "track"]);
+            base.rules.push(match t.pick(3) {
+                0 => format!("/^https?:\\/\\/(?!cdn\\.)[a-z.]+\\/{}/$script", w),
+                1 => format!("/{}(?=\\d)/", w),
+                _ => format!("@@/\\/{}\\d(?<!x)/$image", w),
+            });
+        }
+    }
+    if t.chance(1, 3) {
+        // generichide exceptions that depend on the query string, pages that differ only there
+        base.rules.push("@@||example.com/embed?autoplay=1$generichide".into());
+        base.rules.push("@@/player\\.html\\?(.*&)?ads=off/$generichide".into());
+        base.rules.push("##a[href*=\"sponsor\"]".into());
+        base.rules.push("##div > .promo".into());
+        for p in ["https://example.com/embed?autoplay=1", "https://example.com/embed?autoplay=0", "https://example.com/embed", "https://cdn.example.com/player.html?x=1&ads=off", "https://cdn.example.com/player.html?ads=on"] {
+            if t.chance(2, 3) {
+                base.pages.push(p.to_string());
+            }
+        }
+    }
     for _ in 0..(4 + t.pick(6)) {
         let w = t.choose(&["ads", "banner", "track", "pixel", "img"]);
         base.reqs.push(ReqSpec {
@@ -344,7 +368,7 @@ fn sync_bin() -> String {
 }
 
 pub fn check(ctx: &mut Ctx) {
-    ctx.rule = "schedules: one shared Engine in the build without unsync-regex-caching (regex-heavy list + cosmetic rules + resources, 1 case in 3 with 40-299 extra same-shape tagged regex rules in three buckets; half of the cases with discard policy (1 ns, 0) so every query discards and recompiles, half with the default policy so compiled regexes stay cached across tag switches), 2-16 persistent threads x 20-200 mixed queries (network, csp, cosmetic, class/id) in generated per-thread orders with generated spin/yield points, in 1-5 rounds separated by barriers; between rounds the controller switches the enabled tags through a write lock (re-allocating the same-shape tagged regex rules); request hosts contain the rules' host text at several label-aligned offsets; every answer is compared with the answer of a fresh single-thread engine for that round's tags, computed under the default AND the discard-everything policy (they must agree); a watchdog reports a deadlock only if no query completes anywhere for 60 s; a panic in any thread (incl. lock poisoning) is a failure. transcript: the same seeded stream of cases is answered and serialized by the single-thread and the thread-safe build; the digests must be equal. Non-trivial schedule = at least two threads were inside (or waiting to enter) a query at the same time.".into();
+    ctx.rule = "schedules: one shared Engine in the build without unsync-regex-caching (regex-heavy list + cosmetic rules + resources, 1 case in 3 with full-regex rules the regex crate rejects, 1 in 3 with query-dependent $generichide exceptions and pages that differ only in their query, 1 case in 3 with 40-299 extra same-shape tagged regex rules in three buckets; half of the cases with discard policy (1 ns, 0) so every query discards and recompiles, half with the default policy so compiled regexes stay cached across tag switches), 2-16 persistent threads x 20-200 mixed queries (network, csp, cosmetic, class/id) in generated per-thread orders with generated spin/yield points, in 1-5 rounds separated by barriers; between rounds the controller switches the enabled tags through a write lock (re-allocating the same-shape tagged regex rules); request hosts contain the rules' host text at several label-aligned offsets; every answer is compared with the answer of a fresh single-thread engine for that round's tags, computed under the default AND the discard-everything policy (they must agree); a watchdog reports a deadlock only if no query completes anywhere for 60 s; a panic in any thread (incl. lock poisoning) is a failure. transcript: the same seeded stream of cases is answered and serialized by the single-thread and the thread-safe build; the digests must be equal. Non-trivial schedule = at least two threads were inside (or waiting to enter) a query at the same time.".into();
     ctx.assumptions = vec![
         "real threads sample interleavings; with the whole query under one mutex the schedule space collapses to query orderings, which are what is generated".into(),
         "deadlock is detected by absence of progress, never by a time budget".into(),
